@@ -54,6 +54,7 @@ type specEnv struct {
 	depth    int
 
 	atInstr         bool
+	inOld           bool
 	onlyGhostLocals bool
 	top             *State // the live state: function-level ghosts are locals and are not affected by old()
 }
@@ -448,6 +449,17 @@ func (env *specEnv) binop(x *SBin) SV {
 
 func (env *specEnv) ident(name string) SV {
 	e := env.e
+	// in loop invariants and at-clauses a parameter that the body reassigns denotes its current value
+	// (Go semantics); inside old() and in requires/ensures it denotes the entry value
+	if env.atBlock != nil && !env.noLocals && !env.onlyGhostLocals && !env.inOld {
+		if _, isParam := e.paramVals[name]; isParam {
+			if _, bound := env.vars[name]; bound {
+				if v, ok := env.local(name); ok {
+					return v
+				}
+			}
+		}
+	}
 	if v, ok := env.vars[name]; ok {
 		return v
 	}
@@ -835,7 +847,9 @@ func (env *specEnv) call(x *SCall) SV {
 	}
 	switch id.Name {
 	case "old":
-		return env.withState(env.old, env.old).eval(x.Args[0])
+		oe := env.withState(env.old, env.old)
+		oe.inOld = true
+		return oe.eval(x.Args[0])
 	case "len":
 		v := arg(0)
 		switch {
@@ -925,7 +939,23 @@ func (env *specEnv) call(x *SCall) SV {
 		}
 		st, ok := e.labels[lid.Name]
 		if !ok {
-			env.fail("label %s is not defined before this point", lid.Name)
+			// the labelled point is not on any path to here: its state is arbitrary (clauses normally guard
+			// such uses with a hypothesis that is false on this path)
+			declared := false
+			if e.fc != nil {
+				for _, a := range e.fc.Ats {
+					if a.Kind == "label" && a.Target == lid.Name {
+						declared = true
+					}
+				}
+			}
+			if !declared {
+				env.fail("label %s is not declared", lid.Name)
+			}
+			st = &State{h: map[string]Term{}}
+			for _, n := range e.heapOrder {
+				st.h[n] = e.fresh(n+"_nolabel", e.heapSort[n])
+			}
 		}
 		return env.withState(st, env.old).eval(x.Args[1])
 	case "held", "heldw", "heldr":
@@ -942,7 +972,11 @@ func (env *specEnv) call(x *SCall) SV {
 		su := pt.Elem().Underlying().(*types.Struct)
 		for i := 0; i < su.NumFields(); i++ {
 			if su.Field(i).Name() == sel.Sel {
-				h := tSel(e.heldArr(env.cur), sx("subref", b.T, tInt(int64(i))))
+				lref := sx("subref", b.T, tInt(int64(i)))
+				if _, isPtr := su.Field(i).Type().Underlying().(*types.Pointer); isPtr {
+					lref = e.load(env.cur, e.fieldLoc(b.T, pt.Elem(), i))
+				}
+				h := tSel(e.heldArr(env.cur), lref)
 				switch id.Name {
 				case "heldw":
 					return SV{T: tEq(h, "2"), Sort: "Bool"}
@@ -1034,7 +1068,12 @@ func (e *Enc) usePure(pf *PureFunc) {
 	name := smtName("pf$" + pf.Name)
 	idx := len(e.decls)
 	e.decls = append(e.decls, "") // placeholder keeps declaration order: deps declared after are fine for declare-fun
-	e.decls[idx] = fmt.Sprintf("(declare-fun %s (%s) %s)", name, strings.Join(ps, " "), rs)
+	if _, dup := e.declOf[name]; dup {
+		e.decls[idx] = ""
+	} else {
+		e.declOf[name] = "fun"
+		e.decls[idx] = fmt.Sprintf("(declare-fun %s (%s) %s)", name, strings.Join(ps, " "), rs)
+	}
 	if pf.Body != nil {
 		body := env.eval(pf.Body)
 		var args []string
